@@ -42,6 +42,7 @@ def pick_docs(ctx, cases, out):
 
 
 def run(ctx):
+    _fmt.selftest(ctx)
     cases = _fmt.gen_cases(ctx, n_single=ctx.pick(0, 300), n_sim=ctx.pick(120, 600), max_files=ctx.pick(0, 12))
     out = _fmt.run_formatter(ctx, cases)
     docs = pick_docs(ctx, cases, out)
